@@ -182,6 +182,9 @@ func runC20(res *lp.Result) {
 			if v >= primitive.ProtocolVersion4 {
 				ops = append(ops, op{"fwarn", []string{"nil", "0", "3"}})
 			}
+			// RequestTracingId(true) on a response is applied only while the response carries a tracing id (then flag and body part
+			// agree before and must agree after)
+			ops = append(ops, op{"freq-on-response", []string{"true"}})
 		} else {
 			ops = append(ops, op{"freq", []string{"true", "false"}})
 		}
@@ -248,6 +251,12 @@ func runC20(res *lp.Result) {
 				ask(fmt.Sprintf("c20 fnew %d %d", f.Header.Flags, f.Body.Message.GetOpCode()), showFrameC20(f))
 				var tr []string
 				for _, s := range seq {
+					if s.n == "freq-on-response" {
+						if f.Body.TracingId == nil {
+							continue
+						}
+						s.n = "freq"
+					}
 					apply(f, s.n, s.a)
 					tr = append(tr, s.n+" "+s.a)
 					trace := fmt.Sprintf("v=%d kind=%s ops=[%s]", v, kind, strings.Join(tr, "; "))
